@@ -49,7 +49,7 @@ class LazyMixin:
         if isinstance(src, PyTuple):
             src = self.coerce(src, T.List(self._join_all([x.ty for x in src.items])))
         if isinstance(src, RangeV):
-            i = z3.Const(f"{hint}{n}", z3.IntSort())
+            i = z3.Const(f"{hint}${len(self.binders)}",z3.IntSort())
             return i, z3.And(src.lo <= i, i < src.hi), SV(i, T.INT), i, z3.If(src.hi > src.lo, src.hi - src.lo, 0)
         if isinstance(src, EnumerateV):
             i, dom, el, pos, size = self.domain(src.seq, hint)
@@ -57,10 +57,10 @@ class LazyMixin:
         if isinstance(src, DictView):
             d = src.d
             if d.term is None:
-                k = z3.Const(f"{hint}{n}", z3.IntSort())
+                k = z3.Const(f"{hint}${len(self.binders)}",z3.IntSort())
                 return k, z3.BoolVal(False), SV(None, T.NONE), k, z3.IntVal(0)
             kt, vt = d.ty.args
-            k = z3.Const(f"{hint}{n}", self.w.sort(kt))
+            k = z3.Const(f"{hint}${len(self.binders)}",self.w.sort(kt))
             _, has, val = self.dct(d)
             size, order, posf = self.dict_order(d, src.sorted_)
             ksv = SV(k, kt)
@@ -68,7 +68,7 @@ class LazyMixin:
             el = {"items": PyTuple([ksv, vsv]), "keys": ksv, "values": vsv}[src.kind]
             return k, z3.Select(has(d.term), k), el, posf(d.term, k), size
         if isinstance(src, SV) and src.ty.kind == "list":
-            i = z3.Const(f"{hint}{n}", z3.IntSort())
+            i = z3.Const(f"{hint}${len(self.binders)}",z3.IntSort())
             if src.term is None:
                 return i, z3.BoolVal(False), SV(None, T.NONE), i, z3.IntVal(0)
             ln = self.list_len(src)
@@ -77,7 +77,7 @@ class LazyMixin:
         if isinstance(src, SV) and src.ty.kind == "dict":
             return self.domain(DictView("keys", src), hint)
         if isinstance(src, SV) and src.ty.kind == "set":
-            k = z3.Const(f"{hint}{n}", self.w.sort(src.ty.args[0]))
+            k = z3.Const(f"{hint}${len(self.binders)}",self.w.sort(src.ty.args[0]))
             return k, z3.Select(src.term, k), SV(k, src.ty.args[0]), None, None
         raise Unsupported(f"iteration over {src.ty if isinstance(src, SV) else type(src).__name__}")
 
@@ -188,8 +188,19 @@ class LazyMixin:
         if pos is None:
             raise Unsupported("first element of an unordered source")
         self.hoist_facts(var, dom, facts)
+        # the same filtered sequence (up to the name of the bound variable) always denotes the same first
+        # element: code and contract may both write `[... for ... if ...][0]` and get the *same* term
+        ph = z3.Const(f"__ph<{var.sort()}>", var.sort())
+        canon = (z3.substitute(z3.And(dom, cond), (var, ph)), z3.substitute(pos, (var, ph)))
+        key = ("first", canon[0].get_id(), canon[1].get_id())
+        memo = self.st.__dict__.setdefault("first_memo", {})
+        if key in memo and not self.binders:
+            m, found, _keep = memo[key]
+            return self._subst_value(elt, var, m), found
         found = self._q("exists", var, z3.And(dom, cond))
         m = self.w.fresh_sort(var.sort(), "first")
+        if not self.binders:
+            memo[key] = (m, found, canon)  # canon kept alive so that its ast ids stay unique
         sub = lambda f: z3.substitute(f, (var, m))
         least = self._q("forall", var, z3.Implies(z3.And(dom, cond), pos >= sub(pos)))
         self.side_fact(z3.Implies(found, z3.And(sub(dom), sub(cond), least)))
@@ -237,7 +248,7 @@ class LazyMixin:
         for f in facts:
             self.side_fact(z3.ForAll([var], z3.Implies(dom, f)))
         if lz.kind == "set":
-            v = z3.Const(f"sv{next(_lc)}", self.w.sort(elt.ty))
+            v = z3.Const(f"sv${len(self.binders)}", self.w.sort(elt.ty))
             body = z3.Exists([var], z3.And(dom, cond, elt.term == v))
             return SV(z3.Lambda([v], body), T.Set(elt.ty), fresh=True)
         if not lz.conds:
